@@ -106,6 +106,15 @@ fn configs(tier: Tier) -> Vec<Config> {
         last.extend([l(7), l(0), l(9)]);
         v.push(Config { name: "vi: 67 columns (column 64+j must not be confused with column j)", sigs, header, menus, bits_pairs: vec![], answer: vec![("Q".into(), V::Num(5)), ("R".into(), V::Num(9))], last });
     }
+    {
+        // 67 columns again, the other way round: expected columns at indices 0 and 2, inputs at 64 and 66
+        let mut sigs: Vec<Sig> = vec![Sig::out("Q", 4), Sig::inp("I1", 1, 0), Sig::out("R", 4)];
+        sigs.extend((3..67).map(|i| Sig::inp(&format!("I{i}"), 1, 0)));
+        let header: Vec<String> = sigs.iter().map(|s| s.name.clone()).collect();
+        let menus: Vec<Vec<Entry>> = (0..67).map(|i| match i { 0 | 2 => exp(), 1 | 64 | 66 => one_bit_in(), _ => vec![l(0)] }).collect();
+        let last: Vec<Entry> = (0..67).map(|i| match i { 0 => l(7), 2 => l(9), _ => l(1) }).collect();
+        v.push(Config { name: "viii: 67 columns, expected columns 0 and 2, inputs up to column 66 (column j must not be confused with column 64+j)", sigs, header, menus, bits_pairs: vec![], answer: vec![("Q".into(), V::Num(5)), ("R".into(), V::Num(9))], last });
+    }
     v.push(Config {
         name: "vii: column D_out drives the input D_out and is the expected column of bidirectional D",
         sigs: vec![Sig::bidir("D", 1, V::Z), Sig::inp("D_out", 1, 0), Sig::inp("CLK", 1, 0), Sig::out("Q", 4)],
